@@ -83,6 +83,13 @@ def enumerate_cases(tier):
             continue
         for s in out:
             yield {"a": s}
+    # operators that hold other operators as arguments, all of them parametrised (each nested parameter is part of data and has to be
+    # rebound): HilbertSchmidt / LocalHilbertSchmidt with a parametrised target U as well as a parametrised V
+    for cls in ("HilbertSchmidt", "LocalHilbertSchmidt"):
+        for V, U in (({"op": "RX", "p": [0.3], "w": [1]}, {"op": "RY", "p": [0.5], "w": [0]}),
+                     ({"op": "CRX", "p": [0.7], "w": [2, 3]}, {"op": "IsingXX", "p": [-0.4], "w": [0, 1]}),
+                     ({"op": "Rot", "p": [0.1, 0.2, 0.3], "w": [3]}, {"op": "U3", "p": [0.4, 0.5, 0.6], "w": [5]})):
+            yield {"a": {"op": cls, "p": [], "w": None, "kw": {"V": V, "U": U}}}
 
 
 def _shift(s, cls=None):
